@@ -25,6 +25,13 @@
 //!   `x:<tag>` substitute field `<tag>` by its value in the previous handshake.
 //! `sched=` verdict per datagram in send order: `d` deliver, `x` drop, `u` duplicate, `l<ms>` delay.
 //!
+//!   `fab2 root=<rec> cnoc=<rec> cicac=<rec|-> dnoc=<rec> dicac=<rec|->`   BOTH nodes join a second fabric (index 2)
+//!   `again fab=<1|2>` runs the handshake on that fabric of the controller (default 1). Mutations that put one VALID value
+//!       in the place of another (what a member of both fabrics, or colluding members, can do): `d:<k>` the destination id
+//!       is recomputed, for the random of this Sigma1, for the device's node on fabric `k`; `q` the resumption id is replaced
+//!       by that of the device's record of the OTHER fabric (MIC unchanged); `e:<k>` both.
+//!       `race=<k>`: the RemoveFabric state changes run on the device at the k-th scheduling round after the initiator's
+//!       final status report went onto the wire (k=1: before the responder sees it, k>=2: right after it finished).
 //!   `rmfab`      the device removes its fabric the way the RemoveFabric handler does (`Fabrics::remove`,
 //!                `Sessions::remove_for_fabric`, `ResumableSessions::remove_for_fabric`); `=> removed dc=<cache>`
 //!   `addfab root=<rec> dnoc=<rec> dicac=<rec|-> [dkey=<k>]`   the device installs a fabric (it re-uses the index)
@@ -238,7 +245,7 @@ fn parse_sched(s: &str) -> Vec<Verdict> {
 /// payloads of the handshake messages of the previous handshake (for replay / substitution)
 type Prev = Rc<RefCell<std::collections::HashMap<String, Vec<u8>>>>;
 
-fn apply(m: &Mutation, data: &[u8], off: usize, prev: &std::collections::HashMap<String, Vec<u8>>, foreign: &std::collections::HashMap<String, Vec<u8>>) -> Option<Vec<u8>> {
+fn apply(m: &Mutation, data: &[u8], off: usize, prev: &std::collections::HashMap<String, Vec<u8>>, foreign: &std::collections::HashMap<String, Vec<u8>>, subst: &Subst) -> Option<Vec<u8>> {
     let mut out = data.to_vec();
     let plen = data.len() - off;
     match m.kind.as_str() {
@@ -294,6 +301,27 @@ fn apply(m: &Mutation, data: &[u8], off: usize, prev: &std::collections::HashMap
                 out[off + s..off + s + l].copy_from_slice(&old[os..os + ol]);
             }
         }
+        "d" | "q" | "e" => {
+            if m.kind != "q" {
+                // destination id of another fabric, for THIS Sigma1's random
+                let (rs, rl) = field_range(&data[off..], 1)?;
+                let (ds, dl) = field_range(&data[off..], 3)?;
+                let nd = compute_dest(subst.dest.as_ref()?, &data[off + rs..off + rs + rl])?;
+                if nd.len() != dl {
+                    return None;
+                }
+                out[off + ds..off + ds + dl].copy_from_slice(&nd);
+            }
+            if m.kind != "d" {
+                // resumption id of the device's record of the other fabric
+                let (s6, l6) = field_range(&data[off..], 6)?;
+                let rid = subst.other_rid.as_ref()?;
+                if rid.len() != l6 {
+                    return None;
+                }
+                out[off + s6..off + s6 + l6].copy_from_slice(rid);
+            }
+        }
         "z" => {
             let old = foreign.get(&m.msg)?;
             out.truncate(off);
@@ -314,9 +342,50 @@ struct Nodes {
     ctl_fab: core::num::NonZeroU8,
     dev_fab: std::cell::Cell<Option<core::num::NonZeroU8>>,
     dev_node: u64,
+    /// second fabric: (controller's index, device's index, device's node id there)
+    fab2: std::cell::Cell<Option<(core::num::NonZeroU8, core::num::NonZeroU8, u64)>>,
     prev: Prev,
     foreign: Prev,
     names: Rc<Names>,
+}
+
+/// what a member of a fabric needs to compute a destination id for a node of it
+#[derive(Clone)]
+struct DestInfo {
+    key: [u8; 16],
+    rootpk: Vec<u8>,
+    fabric_id: u64,
+    node: u64,
+}
+
+fn dest_info(m: &Matter, idx: core::num::NonZeroU8, node: u64) -> Option<DestInfo> {
+    m.with_state(|st| {
+        let f = st.fabrics.get(idx)?;
+        let mut key = [0u8; 16];
+        key.copy_from_slice(f.ipk().op_key().access());
+        let rootpk = rs_matter::cert::CertRef::new(TLVElement::new(f.root_ca())).pubkey().ok()?.to_vec();
+        Some(DestInfo { key, rootpk, fabric_id: f.fabric_id(), node })
+    })
+}
+
+fn compute_dest(d: &DestInfo, random: &[u8]) -> Option<Vec<u8>> {
+    use rs_matter::crypto::{Digest, Hash};
+    let crypto = test_only_crypto();
+    let mut mac = crypto.hmac(CanonAeadKeyRef::new(&d.key)).ok()?;
+    mac.update(random).ok()?;
+    mac.update(&d.rootpk).ok()?;
+    mac.update(&d.fabric_id.to_le_bytes()).ok()?;
+    mac.update(&d.node.to_le_bytes()).ok()?;
+    let mut out = Hash::new();
+    mac.finish(&mut out).ok()?;
+    Some(out.access().to_vec())
+}
+
+/// valid-for-valid substitutions in Sigma1
+#[derive(Clone, Default)]
+struct Subst {
+    dest: Option<DestInfo>,
+    other_rid: Option<Vec<u8>>,
 }
 
 fn node_id(r: &Rec) -> Option<u64> {
@@ -342,7 +411,7 @@ fn install<C: Crypto>(crypto: &C, keys: &Keys, m: &Matter, root: &Rec, noc: &Rec
 
 /// `crypto` lives as long as the case: `test_only_crypto()` seeds its generator identically on every call, so a
 /// fresh instance per handshake would make every handshake draw the same "random" values
-fn handshake<C: Crypto>(crypto: &C, n: &Nodes, mutation: Option<Mutation>, sched: Vec<Verdict>) -> String {
+fn handshake<C: Crypto>(crypto: &C, n: &Nodes, mutation: Option<Mutation>, sched: Vec<Verdict>, fab: u8, race: u8) -> String {
     // guard: a datagram storm (two nodes answering each other without end) must not take the
     // harness down; after `CAP` datagrams everything is dropped and the outcome says `storm`
     const CAP: u64 = 1500;
@@ -357,6 +426,31 @@ fn handshake<C: Crypto>(crypto: &C, n: &Nodes, mutation: Option<Mutation>, sched
         }
     }
     let net = SimNet::new(2, Box::new(Capped(Scripted(sched))));
+    // which fabric of the controller runs this handshake, and towards which node id
+    let (ctl_fab, dev_node) = match (fab, n.fab2.get()) {
+        (2, Some((cf2, _, dn2))) => (cf2, dn2),
+        _ => (n.ctl_fab, n.dev_node),
+    };
+    // material for valid-for-valid substitutions
+    let mut subst = Subst::default();
+    if let Some(m) = mutation.as_ref() {
+        if matches!(m.kind.as_str(), "d" | "q" | "e") {
+            let k = if m.kind == "q" { if fab == 2 { 1 } else { 2 } } else { m.a as u8 };
+            let target = match (k, n.fab2.get()) {
+                (2, Some((cf2, df2, dn2))) => Some((cf2, df2, dn2)),
+                (1, _) => n.dev_fab.get().map(|df| (n.ctl_fab, df, n.dev_node)),
+                _ => None,
+            };
+            if let Some((cf, df, dn)) = target {
+                subst.dest = dest_info(&n.ctl, cf, dn);
+                subst.other_rid = n.dev.with_state(|st| {
+                    st.resumption.iter().find(|r| r.fab_idx == df).map(|r| r.resumption_id.reference().access().to_vec())
+                });
+            }
+        }
+    }
+    let st_seen: Rc<std::cell::Cell<bool>> = Rc::new(std::cell::Cell::new(false));
+    let ack_seen: Rc<std::cell::Cell<bool>> = Rc::new(std::cell::Cell::new(false));
     let seen: Rc<RefCell<std::collections::HashMap<String, Vec<u8>>>> = Rc::new(RefCell::new(Default::default()));
     // the first Sigma1 as DELIVERED (after the mutation, if any)
     let delivered_s1: Rc<RefCell<Option<Vec<u8>>>> = Rc::new(RefCell::new(None));
@@ -366,13 +460,22 @@ fn handshake<C: Crypto>(crypto: &C, n: &Nodes, mutation: Option<Mutation>, sched
         let foreign = n.foreign.clone();
         let delivered_s1 = delivered_s1.clone();
         let mut done = false;
-        net.set_tamper(Box::new(move |_seq, _from, _to, data| {
+        let st_seen = st_seen.clone();
+        let ack_seen2 = ack_seen.clone();
+        net.set_tamper(Box::new(move |_seq, from, _to, data| {
+            if from == 0 && st_seen.get() {
+                // the device answers the initiator's final status report (its acknowledgement)
+                ack_seen2.set(true);
+            }
             let (name, off) = classify(data)?;
+            if name == "st" && from == 1 {
+                st_seen.set(true);
+            }
             seen.borrow_mut().entry(name.to_string()).or_insert_with(|| data[off..].to_vec());
             let res = match mutation.as_ref() {
                 Some(m) if !done && m.msg == name => {
                     done = true;
-                    apply(m, data, off, &prev.borrow(), &foreign.borrow())
+                    apply(m, data, off, &prev.borrow(), &foreign.borrow(), &subst)
                 }
                 _ => None,
             };
@@ -394,7 +497,7 @@ fn handshake<C: Crypto>(crypto: &C, n: &Nodes, mutation: Option<Mutation>, sched
         let r: Result<(), Error> = async {
             let exchange = Exchange::initiate_plaintext(&n.ctl, crypto, addr_of(0)).await?;
             match select(
-                core::pin::pin!(CaseInitiator::perform(exchange, crypto, n.ctl_fab, n.dev_node)),
+                core::pin::pin!(CaseInitiator::perform(exchange, crypto, ctl_fab, dev_node)),
                 core::pin::pin!(Timer::after(Duration::from_secs(40))),
             )
             .await
@@ -408,8 +511,33 @@ fn handshake<C: Crypto>(crypto: &C, n: &Nodes, mutation: Option<Mutation>, sched
         Timer::after(Duration::from_secs(12)).await;
         r
     };
+    // `race`: the RemoveFabric state changes hit the device while the final status report of the handshake is in
+    // flight - polled right before the responder, so that they land between the initiator's SigmaFinished and the
+    // responder's processing of it
+    let raced = std::cell::Cell::new(false);
+    let polls = std::cell::Cell::new(0u32);
+    let saboteur = core::future::poll_fn(|_cx| {
+        // `race = k`: at the k-th poll after the initiator's final status report went onto the wire
+        if race > 0 && st_seen.get() {
+            polls.set(polls.get() + 1);
+        }
+        let _ = &ack_seen;
+        if race > 0 && polls.get() == race as u32 && !raced.get() {
+            raced.set(true);
+            if let Some(idx) = n.dev_fab.get() {
+                n.dev.with_state(|st| {
+                    if st.fabrics.remove(idx).is_ok() {
+                        st.verif_sessions_mut().remove_for_fabric(idx, None);
+                        st.resumption.remove_for_fabric(idx);
+                    }
+                });
+                n.dev_fab.set(None);
+            }
+        }
+        core::task::Poll::<()>::Pending
+    });
     let all = async {
-        match select3(n.dev.run(crypto, &ds, &ds, NoNetwork), select(responder.run::<4>(), n.ctl.run(crypto, &cs, &cs, NoNetwork)), flow).await {
+        match select3(n.dev.run(crypto, &ds, &ds, NoNetwork), select3(saboteur, responder.run::<4>(), n.ctl.run(crypto, &cs, &cs, NoNetwork)), flow).await {
             Either3::Third(r) => Some(r),
             _ => None,
         }
@@ -458,6 +586,7 @@ fn handshake<C: Crypto>(crypto: &C, n: &Nodes, mutation: Option<Mutation>, sched
         .as_ref()
         .and_then(|p| field_range(p, 6).map(|(s, l)| n.names.name(&p[s..s + l]).to_string()))
         .unwrap_or_else(|| "-".into());
+    let storm = if raced.get() { format!("{} raced", storm) } else { storm.to_string() };
     format!(
         "t={} ctl={} dev={} keys={} init={}{} via={} rid={} cc={} dc={}",
         ts,
@@ -523,6 +652,7 @@ fn make_nodes<C: Crypto>(
         ctl_fab: cf,
         dev_fab: std::cell::Cell::new(Some(df)),
         dev_node: node_id(dnoc).unwrap_or(0),
+        fab2: std::cell::Cell::new(None),
         prev: Rc::new(RefCell::new(Default::default())),
         foreign,
         names,
@@ -661,12 +791,36 @@ fn run_case(out: &mut Out, case: &Case) {
                     Ok(n) => n,
                     Err(e) => return e,
                 };
-                let r = handshake(&crypto, &n, mutation, sched);
+                let r = handshake(&crypto, &n, mutation, sched, 1, 0);
                 nodes = Some(n);
                 r
             }
             Some("again") => match nodes.as_ref() {
-                Some(n) => handshake(&crypto, n, mutation, sched),
+                Some(n) => {
+                    let fab = key("fab").unwrap_or(1) as u8;
+                    if fab == 2 && n.fab2.get().is_none() {
+                        return "nostate".to_string();
+                    }
+                    handshake(&crypto, n, mutation, sched, fab, key("race").unwrap_or(0) as u8)
+                }
+                None => "nostate".to_string(),
+            },
+            Some("fab2") => match nodes.as_ref() {
+                Some(n) => {
+                    let (Some(root), Some(cnoc), Some(dnoc)) = (get("root"), get("cnoc"), get("dnoc")) else {
+                        return "bad".to_string();
+                    };
+                    let cf = match install(&crypto, &keys, &n.ctl, &root, &cnoc, get("cicac").as_ref(), key("ckey")) {
+                        Ok(f) => f,
+                        Err(e) => return e,
+                    };
+                    let df = match install(&crypto, &keys, &n.dev, &root, &dnoc, get("dicac").as_ref(), key("dkey")) {
+                        Ok(f) => f,
+                        Err(e) => return e,
+                    };
+                    n.fab2.set(Some((cf, df, node_id(&dnoc).unwrap_or(0))));
+                    format!("joined cidx={} didx={}", cf.get(), df.get())
+                }
                 None => "nostate".to_string(),
             },
             Some("rmfab") => match nodes.as_ref() {
@@ -712,8 +866,8 @@ fn run_case(out: &mut Out, case: &Case) {
                     Ok(n) => n,
                     Err(e) => return e,
                 };
-                let a = handshake(&crypto, &n, None, vec![]);
-                let b = handshake(&crypto, &n, None, vec![]);
+                let a = handshake(&crypto, &n, None, vec![], 1, 0);
+                let b = handshake(&crypto, &n, None, vec![], 1, 0);
                 *foreign.borrow_mut() = n.prev.borrow().clone();
                 let ok = a.contains("keys=agree") && b.contains("keys=agree") && b.contains("via=r");
                 format!("foreign {}", if ok { "resumed" } else { "failed" })
@@ -795,7 +949,7 @@ fn random_sched(r: &mut Rng, out: &mut Out) -> String {
     format!("sched={}", v.join("."))
 }
 
-const RULE: &str = "#rule a case is a sequence of operations on two real in-process Matter nodes on the simulated network (CaseInitiator::perform vs the SecureChannel responder): CASE handshakes with honest chains (with/without ICAC, CATs); EVERY entry of the C19 defect catalogue (shared code: c19::defect_at) applied to each certificate of the chain presented by the controller (responder validates) and by the device (initiator validates); a node that does not hold its NOC's key; a DISHONEST peer installed with standard credentials (identity, destination id) but presenting the changed chain or valid credentials of another node / of another fabric id served by the same root key (hook Fabric::verif_present_certs), on either side; resumption chains; one mutation of one handshake datagram (bit flip in a TLV field / payload / header, truncation, replay or field substitution from the previous handshake = stale ids and MICs, substitution from a handshake of two other nodes = foreign ids and MICs) or a loss/duplication/delay schedule; fabric removal and re-installation on the device between handshakes; plus op strings on the real ResumableSessions cache. Observed per side: live CASE sessions (fabric, peer node, CATs), key agreement, which path was taken, the resumption id received, both resumption caches; non-trivial = by outputs";
+const RULE: &str = "#rule a case is a sequence of operations on two real in-process Matter nodes on the simulated network (CaseInitiator::perform vs the SecureChannel responder): CASE handshakes with honest chains (with/without ICAC, CATs); EVERY entry of the C19 defect catalogue (shared code: c19::defect_at) applied to each certificate of the chain presented by the controller (responder validates) and by the device (initiator validates); a node that does not hold its NOC's key; a DISHONEST peer installed with standard credentials (identity, destination id) but presenting the changed chain or valid credentials of another node / of another fabric id served by the same root key (hook Fabric::verif_present_certs), on either side; resumption chains; both nodes on two fabrics with a Sigma1 that carries the destination id of one fabric and the resumption id / MIC of a record of the other (valid-for-valid substitutions a member of both fabrics can make); fabric removal racing a resumed handshake; one mutation of one handshake datagram (bit flip in a TLV field / payload / header, truncation, replay or field substitution from the previous handshake = stale ids and MICs, substitution from a handshake of two other nodes = foreign ids and MICs) or a loss/duplication/delay schedule; fabric removal and re-installation on the device between handshakes; plus op strings on the real ResumableSessions cache. Observed per side: live CASE sessions (fabric, peer node, CATs), key agreement, which path was taken, the resumption id received, both resumption caches; non-trivial = by outputs";
 
 /// the time the nodes of this harness live at (virtual clock, same for every node)
 fn node_time() -> (u32, bool) {
@@ -967,6 +1121,54 @@ pub fn gen(a: &Args) -> String {
                 "again".to_string(),
             ]);
         }
+    }
+
+    // ---- 2b. both nodes on TWO fabrics (A = index 1, B = index 2, another root key), the controller under another node
+    // id and other CATs on B; records on both; then Sigma1 with one VALID value in the place of another: the
+    // destination id of the other fabric, the resumption id of the other fabric's record, both
+    let two_muts: &[&str] = &["1 s1:d:2", "2 s1:d:1", "1 s1:q", "2 s1:q", "1 s1:e:2", "2 s1:e:1"];
+    let rounds = if a.thorough { 12 } else { 2 };
+    for _ in 0..rounds {
+        for tm in two_muts {
+            let mut cr = r.fork();
+            let (fab, c, d) = base(&mut cr, false);
+            let (f, m) = tm.split_once(' ').unwrap();
+            // fabric B: root key 3, other ids; the controller is node 112233 with a CAT there, the device node 777
+            let pb = GenP { fab: fab ^ 0x100, node: 112233, cats: vec![0x00CD_0001], rca: 7, ica: None, nb: 1, na: 0, kr: 3, ki: 1, kn: 2 };
+            let cb = gen_records(&pb);
+            let db = gen_records(&GenP { node: 777, cats: vec![], kn: 4, ..pb });
+            let o = |x: &Option<Rec>| x.as_ref().map(|r| r.text()).unwrap_or_else(|| "-".into());
+            out.stat("kind_two_fabrics", 1);
+            out.stat(&format!("twofab_{}", m.replace(':', "_")), 1);
+            emit(&mut out, vec![
+                hs_line(&c.0, &c, &d, None, ""),
+                format!("fab2 root={} cnoc={} cicac={} dnoc={} dicac={}", cb.0.text(), cb.2.text(), o(&cb.1), db.2.text(), o(&db.1)),
+                "again fab=2".to_string(),
+                "again fab=1".to_string(),
+                "again fab=2".to_string(),
+                format!("again fab={} mut={}", f, m),
+                "again fab=1".to_string(),
+                "again fab=2".to_string(),
+            ]);
+        }
+    }
+
+    // ---- 2c. the RemoveFabric state changes hit the device while the last message of a RESUMED handshake is in flight
+    let n_race = if a.thorough { 48 } else { 6 };
+    for i in 0..n_race {
+        let mut cr = r.fork();
+        let (_, c, d) = base(&mut cr, false);
+        let o = |x: &Option<Rec>| x.as_ref().map(|r| r.text()).unwrap_or_else(|| "-".into());
+        out.stat("kind_remove_during_handshake", 1);
+        let mut ops = vec![hs_line(&c.0, &c, &d, None, "")];
+        if i % 2 == 0 {
+            ops.push("again".to_string());
+        }
+        ops.push(format!("again race={}", 1 + (i / 2) % 3));
+        ops.push(format!("addfab root={} dnoc={} dicac={}", c.0.text(), d.2.text(), o(&d.1)));
+        ops.push("again".to_string());
+        ops.push("again".to_string());
+        emit(&mut out, ops);
     }
 
     // ---- 3. fabric removal between handshakes
